@@ -38,12 +38,56 @@ def _order_int(W):
     return PolyhedralConeOrder(OrderingCone(np.array(W)))
 
 
+def loop_fn(rel, n):
+    """VOParetoOps!LoopFn transcribed over an arbitrary relation rel[j][i] = "j dominates i" (0-based); bound to TLC's table in _replay"""
+    ip = list(range(n))
+    nx = 0
+    while nx < len(ip):
+        vj = ip[nx]
+        mask = [True if k == nx else not rel[vj][ip[k]] for k in range(len(ip))]
+        before = sum(1 for k in range(nx) if mask[k])
+        ip = [ip[k] for k in range(len(ip)) if mask[k]]
+        nx = before + 1
+    return ip
+
+
+def _consistency_leg(seed):
+    """The fast routine is LoopFn over the order's OWN pairwise relation: for cones whose rows are not exactly representable (bundled,
+    unit-normalised) a difference lying exactly on a facet is decided by rounding, and it must be decided the way order.dominates(a, b)
+    decides it - the loop may not use another arithmetic route to the same comparison."""
+    import itertools
+    import numpy as np
+    from vopy.order import ConeOrder3D, ConeOrder3DIceCream, ConeTheta2DOrder
+    rs = np.random.RandomState(seed + 5)
+    orders = [("acute3d", ConeOrder3D("acute"), 3), ("obtuse3d", ConeOrder3D("obtuse"), 3), ("theta60", ConeTheta2DOrder(60), 2), ("theta90", ConeTheta2DOrder(90), 2),
+              ("theta135", ConeTheta2DOrder(135), 2), ("ice45-8", ConeOrder3DIceCream(45, 8), 3)]
+    bad, n = [], 0
+    for name, o, d in orders:
+        lat = np.array(list(itertools.product(range(4), repeat=d)), dtype=float)
+        for trial in range(6):
+            V = lat if trial == 0 else lat[rs.choice(len(lat), size=int(rs.randint(5, min(40, len(lat)))), replace=True)]
+            if trial % 2:
+                V = V / 10.0           # one-decimal data
+            m = len(V)
+            rel = [[bool(np.all(o.dominates(V[j], V[i]))) for i in range(m)] for j in range(m)]
+            exp = loop_fn(rel, m)
+            got = [int(i) for i in o.get_pareto_set(V.copy())]
+            n += 1
+            if got != exp:
+                bad.append({"kind": "fast-vs-own-relation", "cone": name, "V": V.tolist(), "expected": exp, "got": got})
+                break
+    return n, bad
+
+
 def _replay(rows):
     import numpy as np
     bad = []
     orders = {}
     for r in rows:
         key = str(r["W"])
+        Vi = [tuple(v) for v in r["V"]]
+        if loop_fn([[R.dominates(r["W"], Vi[j], Vi[i]) for i in range(len(Vi))] for j in range(len(Vi))], len(Vi)) != [k - 1 for k in r["fast"]]:
+            raise tlc.MachineryError("loop_fn (harness transcription of VOParetoOps!LoopFn) disagrees with TLC on %s" % r)
         if key not in orders:
             orders[key] = (_order(r["W"]), _order_int(r["W"]))
         for scale, o in ((1.0, orders[key][0]), (0.125, orders[key][0]), (0.125, orders[key][1]), (0.3, orders[key][1])):
@@ -142,12 +186,17 @@ def run(ctx):
     out = pmap(_random_cases, [(ctx.seed * 1000 + k, (60 if thorough else 12), (300 if thorough else 120)) for k in range(32)])
     nrand = sum(d for d, _ in out)
     bad += [b for _, bs in out for b in bs]
+    ncons, badc = _consistency_leg(ctx.seed)
+    for b in badc:
+        ctx.violation("pareto-%s|%s" % (b["kind"], b["cone"]), b, "get_pareto_set on the bundled cone %s returned %s; the loop over the order's own pairwise relation gives %s (vectors %s)" % (
+            b["cone"], b["got"], b["expected"], str(b["V"])[:200]))
+    ctx.extra["consistency_cases"] = ncons
     for b in bad:
         ctx.violation("pareto-%s|K=%d" % (b["kind"], len(b["W"])), b,
                       "get_pareto_set%s on cone %s, vectors %s returned %s, specification says %s %s" % (
                           "_naive" if b["kind"] == "naive" else "", b["W"], str(b["V"])[:200], b["got"], b["expected"], b.get("why", "")))
     ctx.traces = len(rows) + nrand
-    ctx.evaluations = 4 * len(rows) + 2 * nrand
+    ctx.evaluations = 4 * len(rows) + 2 * nrand + ncons
     for r in rows:
         if len(r["def"]) < len(r["V"]):
             ctx.nontriv((r["W"], r["V"]))
@@ -162,6 +211,8 @@ def run(ctx):
 
 def replay(body):
     c = body["case"]
+    if c["kind"] == "fast-vs-own-relation":
+        return not _consistency_leg(0)[1]
     if c["kind"] == "random":
         import numpy as np
         o = _order(c["W"])
